@@ -111,6 +111,58 @@ class GetUsedEnums(Contract):
 CONTRACTS = [SaveDependencies(), GetUsedEnums()]
 
 
+# ------------------------------------------------------------------------------------------ enum filter
+import ast                                                             # noqa: E402
+from ariadne_codegen.client_generators import enums as EN              # noqa: E402
+
+CLASS_DEF = Cls(ast.ClassDef, name=GQ.NAME)
+CLASS_DEFS = ListOf(CLASS_DEF, name="enum_class_defs")
+keep_listed = SpecMap("enum_defs_kept", lambda c, names: c,
+                      keep_fn=lambda c, names: V.vcontains(V.vl(names), V.attr_of(c, ast.ClassDef, "name")), param_sorts=(V.Val,))
+
+
+class FilterEnumClassDefs(Contract):
+    """statement: `pruning ... never removes something needed`: with a list of used enums exactly the class definitions
+    whose name is listed are kept (each once, in their original order); without a list nothing is removed"""
+    props = ("C09",)
+    target = "ariadne_codegen.client_generators.enums:EnumsGenerator._filter_class_defs"
+    use_at_calls = False
+    frame_args = False
+
+    def setup(self, E):
+        defs = E.sym("class_defs", CLASS_DEFS)
+        include = E.sym("types_to_include", Opt(ListOf(GQ.NAME, name="used_enum_names")))
+        return [self_obj(EN.EnumsGenerator, {"_class_defs": defs})], dict(types_to_include=include)
+
+    def ensures(self, A, res):
+        defs = A["class_defs"] if "class_defs" in A else z3.Const("class_defs", V.Val)
+        inc = A.types_to_include
+        p = A.get("__path__")
+        kept = keep_listed.apply(p, V.vl(defs), inc) if p is not None else keep_listed(V.vl(defs), inc)
+        return {"no-list-nothing-removed": z3.Implies(V.is_VNone(inc), res == defs),
+                "keeps-exactly-the-listed-enums-in-order": z3.Implies(z3.Not(V.is_VNone(inc)), res == V.VList(kept))}
+
+    def native_self(self):
+        g = EN.EnumsGenerator.__new__(EN.EnumsGenerator)
+        g._class_defs = self._inputs["class_defs"]
+        return g
+
+    def native_args(self, inputs):
+        self._inputs = inputs
+        return [], dict(types_to_include=inputs.get("types_to_include"))
+
+    def native_names(self, inputs, args, kwargs):
+        return dict(class_defs=inputs["class_defs"], types_to_include=inputs.get("types_to_include"))
+
+    def samples(self, tier):
+        mk_ = lambda n: ast.ClassDef(name=n, bases=[], keywords=[], body=[], decorator_list=[])      # noqa: E731
+        defs = [mk_("A"), mk_("B"), mk_("C")]
+        return [dict(class_defs=defs, types_to_include=i) for i in (None, [], ["B"], ["C", "A"], ["X"], ["A", "A"])]
+
+
+CONTRACTS.append(FilterEnumClassDefs())
+
+
 # ------------------------------------------------------------------------------------------ bounded stand-in
 
 def bounded_pruning(tier, seed):
